@@ -490,6 +490,22 @@ var Corpus = []Scenario{
 		x.Ann("c-valid", "B")
 		x.D.Converge(60)
 	}},
+	{"canary-unfit-node-then-replicas-lowered", []string{"C15", "C04"}, func(x Scn) {
+		// a selected node becomes unfit (tainted, still matching the canary selector) and the requested number drops below the
+		// length of the list: the re-selection removes the unfit node and adds nothing
+		sc := CanaryStrategy("3")
+		sc.CMode, sc.CDuration, sc.CNoRestarts = "manual", 0, -1
+		x.Setup(5, "A", sc)
+		x.Template("B")
+		x.Rounds(3)
+		x.do(Action{Op: "NodeTaint", N: "n1", V: "on"})
+		sc.CReplicas = "2"
+		x.D.Strategy[Key] = sc
+		x.do(Action{Op: "SetStrategy", Key: Key})
+		x.Rounds(4)
+		x.Ann("c-valid", "B")
+		x.D.Converge(60)
+	}},
 	{"canary-validate-stale", []string{"C05", "C19"}, func(x Scn) {
 		// a second template change while a canary runs; the validation written meanwhile names the FIRST canary
 		sc := CanaryStrategy("1")
@@ -504,6 +520,35 @@ var Corpus = []Scenario{
 		x.Rounds(3)
 		x.Ann("c-valid", "C")
 		x.D.Converge(60)
+	}},
+	{"canary-small-percentage", []string{"C05", "C15", "C04"}, func(x Scn) {
+		// replicas as a percentage worth less than one pod (10% of 3): the canary still runs with one pod (rounded up) for its duration
+		sc := CanaryStrategy("10%")
+		sc.CDuration = 6
+		x.Setup(3, "A", sc)
+		x.Template("B")
+		x.Rounds(4)
+		x.D.Converge(40)
+	}},
+	{"rolling-update-partial-failure", []string{"C09", "C17", "C03"}, func(x Scn) {
+		// one of two pod deletions of a sync is refused by the API (status write succeeds); the retry request arrives at once:
+		// the reconcile-frequency gate still holds
+		sc := BaseStrategy()
+		sc.MaxUnavailable = "2"
+		x.Setup(4, "A", sc)
+		x.Template("B")
+		x.Tick(1)
+		x.do(Action{Op: "KRound"})
+		x.EDS()
+		x.EDS()
+		x.D.C.PodFault = "first"
+		x.ERS("B")
+		x.D.C.PodFault = ""
+		// the deleted pod is gone at once (no grace period); the retry arrives in the same instant
+		x.do(Action{Op: "KRound"})
+		x.ERS("B")
+		x.ERS("B")
+		x.D.Converge(40)
 	}},
 	{"canary-covers-all-nodes", []string{"C13", "C04", "C07", "C02"}, func(x Scn) {
 		// as many canary replicas as nodes: the active replica set targets no node and reports 0/0/0/0 during the canary
@@ -719,6 +764,19 @@ var Corpus = []Scenario{
 		x.Template("C")
 		x.Rounds(4)
 		x.D.Converge(60)
+	}},
+	{"eds-carries-controller-annotations", []string{"C13", "C10", "C02"}, func(x Scn) {
+		// the ExtendedDaemonSet's own metadata carries the controller's template-hash annotation with a stale value (a manifest derived
+		// from an exported PodTemplate / replica set): replica sets, pods and the PodTemplate must still record the real hash
+		x.D.Strategy[Key] = BaseStrategy()
+		for i := 1; i <= 2; i++ {
+			x.do(Action{Op: "NodeAdd", N: "n" + strconv.Itoa(i), V: "A,B,C", W: "c;z=z1"})
+		}
+		x.do(Action{Op: "CreateEDS", Key: Key, T: "A"})
+		x.Ann("tmpl-hash", "0123456789abcdef0123456789abcdef")
+		x.D.Converge(20)
+		x.Template("B")
+		x.D.Converge(30)
 	}},
 	{"two-eds-overlapping-labels", []string{"C12", "C13", "C02"}, func(x Scn) {
 		// the second ExtendedDaemonSet carries, among its own metadata labels, the name label of the first one (e.g. a manifest
